@@ -202,6 +202,84 @@ def crash_clause_c09(rep, rng, thorough):
             vlib.log("known finding %s no longer reproduces on its witness" % w["id"])
 
 
+def upgrade_landmarks(ops):
+    """the file-system calls of an upgrading open reduced to the protocol steps of Upgrade.tla"""
+    import re
+    out, nd, ni, pchunk, ichunk = [], 0, 0, False, False
+    for k, a, b in ops:
+        ev = None
+        if k == "rename" and a == "index.free" and b == "index.free.gc":
+            ev = ("PToGC", -1)
+        elif k == "unlink" and a == "index.free.gc":
+            ev = ("PRmGC", -1)
+        elif k == "trunc" and re.fullmatch(r"data\.\d+", a) and not pchunk:
+            ev, pchunk = ("PChunk", -1), True
+        elif k == "rename" and a == "data.info.tmp":
+            nd += 1
+            ev = ("PHdr" if nd == 1 else "PHdr2", -1)
+        elif k == "unlink" and a == "data":
+            ev = ("PRmOld", -1)
+        elif k == "trunc" and re.fullmatch(r"index\.\d+", a) and not ichunk:
+            ev, ichunk = ("IChunk", -1), True
+        elif k == "rename" and a == "index.info.tmp":
+            ni += 1
+            ev = ("IHdr" if ni == 1 else "IHdr2", -1)
+        elif k == "unlink" and a == "index":
+            ev = ("IRmOld", -1)
+        elif k == "create" and re.fullmatch(r"index\.\d+\.tmp", a):
+            ev = ("RCopy", int(a.split(".")[1]))
+        elif k == "pwrite" and re.fullmatch(r"index\.\d+\.tmp", a):
+            ev = ("RWrite", int(a.split(".")[1]))
+        elif k == "create" and re.fullmatch(r"index\.\d+\.remapped", a):
+            ev = ("RMark", int(a.split(".")[1]))
+        elif k == "rename" and re.fullmatch(r"index\.\d+\.tmp", a):
+            ev = ("RRename", int(a.split(".")[1]))
+        elif k == "unlink" and re.fullmatch(r"index\.\d+\.remapped", a):
+            ev = ("IRmMarkers", -1)
+        if ev and not (out and out[-1] == ev and ev[0] in ("RWrite", "IRmMarkers")):
+            out.append(ev)
+    return out
+
+
+def upgrade_protocol_part(rep, label):
+    """Upgrade.tla: the legacy upgrade as a crash-restart protocol, model-checked (every index file remapped exactly once,
+    nothing left behind, the freelist applied once, an uninterrupted open always finishes - with up to 3 crashes anywhere);
+    with a lost record TLC reproduces the known finding; binding: the order of the file-system calls of every traced real
+    upgrade (from the strace log) must be a behaviour of the model (UpgradeTrace.tla) - a conformance figure."""
+    base = {"IdxFiles": "{0, 1}", "NeedRemap": "TRUE", "ResumeRename": "TRUE", "LeftoverRemoved": "TRUE", "MaxCrashes": 3}
+    r = vlib.tlc_must("MCUpgrade", "MCUpgrade_mc.cfg", consts=dict(base, Lost="{}"), timeout=600)
+    if r.violated:
+        raise vlib.Infra("Upgrade.tla violates its invariants - replay the counter-example first:\n" + r.out[-2500:])
+    rep.add_model(r)
+    r = vlib.tlc_must("MCUpgrade", "MCUpgrade_mc.cfg", consts=dict(base, Lost="{}", NeedRemap="FALSE"), timeout=600)
+    if r.violated:
+        raise vlib.Infra("Upgrade.tla (no remapping needed) violates its invariants:\n" + r.out[-2500:])
+    rep.add_model(r)
+    rk = vlib.tlc("MCUpgrade", "MCUpgrade_mc.cfg", consts=dict(base, Lost="{0}"), timeout=600)
+    rep.cov["upgrade_model_reproduces_the_known_finding_with_a_lost_record"] = bool(rk.rc == 12 and "CleanWhenFinished is violated" in rk.out)
+    files = sorted(glob.glob(os.path.join(vlib.scratch(), "crash." + label, "trace.fsops.*.json")))
+    import concurrent.futures as cf
+
+    def one(f):
+        o = json.load(open(f))
+        lm = upgrade_landmarks(o["ops"])
+        tf = f + ".lm.ndjson"
+        with open(tf, "w") as g:
+            g.write("".join(json.dumps({"a": a, "f": n}) + "\n" for a, n in lm))
+        q = vlib.tlc("UpgradeTrace", "UpgradeTrace.cfg", workers=1, timeout=300, env={"VTRACE": tf}, name="up%d" % o["t"])
+        return q.rc == 12 and "NotAccepted is violated" in q.out, len(lm)
+    acc = n = steps = 0
+    with cf.ThreadPoolExecutor(max_workers=8) as ex:
+        for ok, k in ex.map(one, files):
+            n += 1
+            acc += 1 if ok else 0
+            steps += k
+    rep.cov["upgrade_runs_checked_against_the_protocol_model"] = n
+    rep.cov["upgrade_runs_whose_call_order_the_model_does_not_allow"] = n - acc
+    rep.cov["upgrade_protocol_steps_matched"] = steps
+    vlib.log("C10 protocol model: %d traced upgrades, %d protocol steps, %d runs not a behaviour of Upgrade.tla" % (n, steps, n - acc))
+
+
 MKEYS = [[1, 7, 7, 0, 9, 0, 3, 3], [1, 7, 7, 0, 9, 0, 3, 4], [2, 7, 7, 0, 9, 0, 3, 3]]
 
 
@@ -290,6 +368,8 @@ def run(pid):
         rep.violation(what, obj)
     rep.cov["continuation_failures_attributed_to_known_findings"] = known
     rep.cov["samples"] = [scens[0]["ops"][:12] or scens[0].get("legacy")]
+    if pid == "C10":
+        upgrade_protocol_part(rep, pid)
     if pid == "C03":
         # collector-focused batch: histories that leave unreferenced index files and dead primary records behind, then one
         # index GC cycle with the free-file scan, one primary GC cycle and one index GC cycle without the scan - with EVERY
